@@ -653,6 +653,9 @@ class Message:
     _types[CHANNEL_CLOSE_ERROR] = ("CHANNEL_CLOSE_ERROR", _channel_close_error)
 
     def _channel_last_message(message: Message, gateway: BaseGateway) -> None:
+        channel = gateway._channelfactory._channels.get(message.channelid)
+        if channel is not None:
+            channel._peer_awaits_close = True
         gateway._channelfactory._local_close(message.channelid, sendonly=True)
 
     CHANNEL_LAST_MESSAGE = 7
@@ -713,6 +716,9 @@ class Channel:
     TimeoutError = TimeoutError
     _INTERNALWAKEUP = 1000
     _executing = False
+    # the peer dropped its channel object but keeps a callback ("sendonly"
+    # state here): it still needs to hear about our close
+    _peer_awaits_close = False
 
     def __init__(self, gateway: BaseGateway, id: int) -> None:
         """:private:"""
@@ -782,8 +788,11 @@ class Channel:
                 error.warn()
         elif self._receiveclosed.is_set():
             # state transition "sendonly" --> "deleted"
-            # the remote channel is already in "deleted" state, nothing to do
-            pass
+            # the remote channel is already in "deleted" state, but its
+            # callback (if any) still waits for the end of the channel
+            if self._peer_awaits_close and Message is not None:
+                with suppress(OSError, ValueError):
+                    self.gateway._send(Message.CHANNEL_CLOSE, self.id)
         else:
             # state transition "opened" --> "deleted"
             # check if we are in the middle of interpreter shutdown
@@ -863,12 +872,22 @@ class Channel:
             # but it's never damaging to send too many CHANNEL_CLOSE messages
             # however, if the other side triggered a close already, we
             # do not send back a closed message.
-            if not self._receiveclosed.is_set():
+            opened = not self._receiveclosed.is_set()
+            if opened or self._peer_awaits_close:
                 put = self.gateway._send
-                if error is not None:
-                    put(Message.CHANNEL_CLOSE_ERROR, self.id, dumps_internal(error))
-                else:
-                    put(Message.CHANNEL_CLOSE, self.id)
+                try:
+                    if error is not None:
+                        put(
+                            Message.CHANNEL_CLOSE_ERROR,
+                            self.id,
+                            dumps_internal(error),
+                        )
+                    else:
+                        put(Message.CHANNEL_CLOSE, self.id)
+                except OSError:
+                    # in "sendonly" state the connection may be gone already
+                    if opened:
+                        raise
                 self._trace("sent channel close message")
             if isinstance(error, RemoteError):
                 self._remoteerrors.append(error)
